@@ -415,7 +415,7 @@ ROUND7_ADDENDA = {
     "C05": "thorough tier: one scenario whose first handler call takes 10.5 s with packets waiting; a rows-query event may be skipped instead of ending the attempt (then the master does not fall silent behind it)",
     "C06": "for transport causes one scenario in twenty runs with error-level log lines of the reader taking 1.2 s; the refused statement is the one naming binlog_checksum; a rows-query event that is skipped with everything delivered is not a swallowed error",
     "C07": "the refused statement is the checksum announcement and the failed write is the dump command, whatever else the session sends; labels of a resumed attempt follow the position it asked for",
-    "C08": "sessions with a formatting logger as in C01",
+    "C08": "sessions with a formatting logger as in C01; one scenario in eight runs in two streamers of one process at the same time (the second with the other handler behaviour)",
     "C12": "end-to-end part with DSN parameters as in C01",
     "C13": "end-to-end part with a formatting logger as in C01",
     "C14": "objects of 6000 / 7300 members and objects with few keys of 1.7-2.1 KB (key offsets beyond 16 bits)",
